@@ -2,7 +2,8 @@
 EAX (Bellare-Rogaway-Wagner, "The EAX mode of operation") and OMAC1/CMAC (NIST SP 800-38B), written from the standards.
 
 The cryptographic primitives are UNINTERPRETED symbols (SIG entries with 'uf'): the proofs about the Python glue use only
-congruence and the size facts listed here.  `fid` is the (ghost) identity of the block-cipher module, so E(fid, key, .)
+congruence and the size facts listed here (`impl`/`conj` are the eager, non-forking implication/conjunction forms that
+contracts/aead1_natives.py adds to the clause language).  `fid` is the (ghost) identity of the block-cipher module, so E(fid, key, .)
 is "the block cipher selected by (module, key)".  Restricted Python: executed symbolically by PYVC."""
 
 SIG = {
@@ -13,18 +14,17 @@ SIG = {
     # CIPH_K(T_1) || CIPH_K(T_2) || ...  with T_1 = icb and the standard incrementing function on the low
     # len(icb)-plen bytes; its first block is CIPH_K(icb) by definition
     'ctr_ks': {'sort': 'bytes', 'uf': True,
-               'facts': ['n >= 0 ==> len(result) == n',
-                         '(pos == 0 and n == len(icb)) ==> result == spec.aead1.E(fid, key, icb)']},
-    # bytewise exclusive or of two strings of equal length; 0^n is its left identity
-    'xor': {'sort': 'bytes', 'uf': True, 'facts': ['len(result) == len(a)',
-                                                   'a == rep(bytes(1), len(a)) ==> result == b']},
+               'facts': ['impl(n >= 0, len(result) == n)',
+                         'impl(conj(pos == 0, n == len(icb)), result == spec.aead1.E(fid, key, icb))']},
+    # bytewise exclusive or of two strings of equal length (variable length: uninterpreted; fixed-size blocks use bxor)
+    'xor': {'sort': 'bytes', 'uf': True, 'facts': ['len(result) == len(a)']},
     # GHASH_H(X) of SP 800-38D 6.4, X a whole number of 128-bit blocks
     'ghash': {'sort': 'bytes', 'uf': True, 'facts': ['len(result) == 16']},
     # CBC chaining value (SP 800-38A 6.2): last ciphertext block of CBC-encrypting `data` (whole blocks, non-empty)
     # with chaining value `iv`; and the whole CBC ciphertext
     'cbc': {'sort': 'bytes', 'uf': True, 'facts': ['len(result) == len(data)']},
     # ChaCha20 key stream bytes [pos, pos+n) for (key, nonce), block counter starting at 0 (RFC 8439 2.4)
-    'chacha20_ks': {'sort': 'bytes', 'uf': True, 'facts': ['n >= 0 ==> len(result) == n']},
+    'chacha20_ks': {'sort': 'bytes', 'uf': True, 'facts': ['impl(n >= 0, len(result) == n)']},
     # HChaCha20(key, nonce16) (draft-irtf-cfrg-xchacha 2.2)
     'hchacha20': {'sort': 'bytes', 'uf': True, 'facts': ['len(result) == 32']},
     # Poly1305(r || s, msg) (RFC 8439 2.5); key = the 32-byte one-time key
@@ -35,6 +35,11 @@ SIG = {
     'blake2s160': {'sort': 'bytes', 'uf': True,
                    'facts': ['len(result) == 20', 'spec.aead1.blake2s160_inv(key, result) == data']},
     'blake2s160_inv': {'sort': 'bytes', 'uf': True},
+    # [x]_64 of SP 800-38D 4.2.1 (the 64-bit big-endian string of a non-negative integer x < 2^64) and its little-endian
+    # counterpart of RFC 8439 2.8 ("64-bit little-endian integer"): notations, kept symbolic so that no proof has to
+    # reason about div/mod of the digits
+    'u64be': {'sort': 'bytes', 'uf': True, 'facts': ['len(result) == 8', 'impl(conj(n >= 0, n < 18446744073709551616), be(result) == n)']},
+    'u64le': {'sort': 'bytes', 'uf': True, 'facts': ['len(result) == 8', 'result == spec.aead1.u64be(n)[::-1]']},
     # ---- result sorts of the defined functions (for `opaque=`) -------------------------------------------------
     'pad16': 'bytes', 'zeros': 'bytes', 'gcm_h': 'bytes', 'gcm_j0': 'bytes', 'inc32': 'bytes', 'gcm_s_input': 'bytes',
     'gcm_tag': 'bytes', 'ctr_limit': 'int', 'be4': 'int[nat]',
@@ -80,6 +85,14 @@ def blake2s160(key, data):
     pass
 
 
+def u64be(n):
+    pass
+
+
+def u64le(n):
+    pass
+
+
 def blake2s160_inv(key, digest):
     pass
 
@@ -105,7 +118,7 @@ def gcm_j0(fid, key, iv):
     s = 128*ceil(len(IV)/128) - len(IV)   (len in bits; 1 <= len(IV) <= 2^64-1 bits)"""
     if len(iv) == 12:
         return iv + b'\x00\x00\x00\x01'
-    return ghash(gcm_h(fid, key), iv + rep(b'\x00', (16 - len(iv) % 16) % 16 + 8) + i2osp(8 * len(iv), 8))
+    return ghash(gcm_h(fid, key), iv + rep(b'\x00', (16 - len(iv) % 16) % 16 + 8) + u64be(8 * len(iv)))
 
 
 def be4(x):
@@ -121,7 +134,7 @@ def inc32(x):
 def gcm_s_input(s, alen, clen):
     """the GHASH input of 7.1 step 5, A || 0^v || C || 0^u || [len(A)]_64 || [len(C)]_64, written over the stream
     s = A || 0^v || C that the mode has pushed so far (alen, clen in BYTES; before any ciphertext s = A)"""
-    return pad16(s) + i2osp(8 * alen, 8) + i2osp(8 * clen, 8)
+    return pad16(s) + u64be(8 * alen) + u64be(8 * clen)
 
 
 def gcm_tag(fid, key, j0, s, alen, clen, t):
@@ -145,7 +158,7 @@ def cp_otk(key, nonce):
 
 def cp_mac_input(a, c):
     """2.8: AAD || pad16 || ciphertext || pad16 || le64(len AAD) || le64(len ciphertext)"""
-    return pad16(a) + pad16(c) + i2le(len(a), 8) + i2le(len(c), 8)
+    return pad16(a) + pad16(c) + u64le(len(a)) + u64le(len(c))
 
 
 # ================================================================== OMAC1 = CMAC, SP 800-38B
